@@ -189,153 +189,8 @@ func runC10(c *Ctx, r *Report) {
 	optionForwarding(c, r, "R-C10.7", append(loaderFetchSpecs(), constructorLoaderSpecs()...), "Length", "Exclude", "ShouldExclude")
 	r.Doc("R-C10.8", "the outcome does not depend on the fetch concurrency: no configuration of slots and queued hashes stalls the dispatcher (slot release before the mutex, worker accounting on every path)")
 	importRules(c, r, "C11", []string{"R-C11.1", "R-C11.6"}, "R-C10.8")
-	r.Doc("R-C10.12", "a fetched entry is never refused on a clock tie: wherever the admission of a fetched entry compares its clock time with a bound the fetcher tracks, equality admits (the log's order breaks equal times by writer id, so a tied entry can still belong to the kept tail; refusing it makes the outcome depend on block arrival order)")
-	{
-		fetcherT := p.Named("entry", "Fetcher")
-		ninst := 0
-		for _, fn := range p.Fns {
-			if fn.Orig != nil || !inPkgs(p, fn, "entry") {
-				continue
-			}
-			root := fn.Root()
-			if root.Obj == nil {
-				continue
-			}
-			if rv := root.Obj.Type().(*types.Signature).Recv(); rv == nil || namedOf(rv.Type()) != fetcherT {
-				continue
-			}
-			// single-definition locals of this function (and of the enclosing ones, for literals)
-			defOf := func(o types.Object) ast.Expr {
-				var def ast.Expr
-				n := 0
-				ast.Inspect(root.Body, func(m ast.Node) bool {
-					if as, ok := m.(*ast.AssignStmt); ok && len(as.Lhs) == len(as.Rhs) {
-						for k, l := range as.Lhs {
-							if id, ok := l.(*ast.Ident); ok && p.ObjOf(fn, id) == o {
-								def = as.Rhs[k]
-								n++
-							}
-						}
-					}
-					return true
-				})
-				if n == 1 {
-					return def
-				}
-				return nil
-			}
-			var expand func(e ast.Expr, depth int) ast.Expr
-			expand = func(e ast.Expr, depth int) ast.Expr {
-				e = ast.Unparen(e)
-				if id, ok := e.(*ast.Ident); ok && depth < 4 {
-					if o := p.ObjOf(fn, id); o != nil {
-						if _, isVar := o.(*types.Var); isVar {
-							if d := defOf(o); d != nil {
-								return expand(d, depth+1)
-							}
-						}
-					}
-				}
-				return e
-			}
-			var atomsOf func(cond ast.Expr, taken bool, depth int) [][]condAtom
-			atomsOf = func(cond ast.Expr, taken bool, depth int) [][]condAtom {
-				var out [][]condAtom
-				for _, alt := range dnfCond(cond, taken) {
-					alts := [][]condAtom{{}}
-					for _, a := range alt {
-						x := expand(a.E, 0)
-						var sub [][]condAtom
-						if x != ast.Unparen(a.E) && depth < 3 {
-							sub = atomsOf(x, a.Truth, depth+1)
-						} else {
-							sub = [][]condAtom{{a}}
-						}
-						var nx [][]condAtom
-						for _, pre := range alts {
-							for _, sfx := range sub {
-								nx = append(nx, append(append([]condAtom{}, pre...), sfx...))
-							}
-						}
-						alts = nx
-					}
-					out = append(out, alts...)
-				}
-				return out
-			}
-			isClockTime := func(e ast.Expr) bool {
-				found := false
-				ast.Inspect(expand(e, 0), func(m ast.Node) bool {
-					if call, ok := m.(*ast.CallExpr); ok {
-						if cal := p.Callee(fn, call); cal != nil && cal.Name() == "GetTime" {
-							found = true
-						}
-					}
-					return !found
-				})
-				return found
-			}
-			isFetcherField := func(e ast.Expr) bool {
-				sel, ok := ast.Unparen(e).(*ast.SelectorExpr)
-				if !ok {
-					return false
-				}
-				v, ok := p.ObjOf(fn, sel.Sel).(*types.Var)
-				return ok && v.IsField() && namedOf(p.TypeOf(fn, sel.X)) == fetcherT
-			}
-			walkNoLit(fn.Body, func(n ast.Node) bool {
-				as, ok := n.(*ast.AssignStmt)
-				if !ok || len(as.Rhs) != 1 {
-					return true
-				}
-				call, ok := ast.Unparen(as.Rhs[0]).(*ast.CallExpr)
-				if !ok || p.Builtin(fn, call) != "append" || len(call.Args) < 2 {
-					return true
-				}
-				if et := p.TypeOf(fn, call.Args[1]); et == nil || !isNamed(et, p.pkgPath("iface"), "IPFSLogEntry") {
-					return true
-				}
-				// the conditions this append sits under
-				for cur, par := ast.Node(as), p.ParentIn(fn, as); par != nil; cur, par = par, p.ParentIn(fn, par) {
-					if par == ast.Node(fn.Body) {
-						break
-					}
-					ifs, ok := par.(*ast.IfStmt)
-					if !ok || (cur != ast.Node(ifs.Body) && cur != ifs.Else) {
-						continue
-					}
-					for _, alt := range atomsOf(ifs.Cond, cur == ast.Node(ifs.Body), 0) {
-						for _, a := range alt {
-							be, ok := ast.Unparen(a.E).(*ast.BinaryExpr)
-							if !ok {
-								continue
-							}
-							timeLeft := isClockTime(be.X) && isFetcherField(be.Y)
-							timeRight := isClockTime(be.Y) && isFetcherField(be.X)
-							if !timeLeft && !timeRight {
-								continue
-							}
-							ninst++
-							admitsTie := false
-							switch be.Op {
-							case token.GEQ, token.LEQ, token.EQL:
-								admitsTie = a.Truth
-							case token.GTR, token.LSS, token.NEQ:
-								admitsTie = !a.Truth
-							}
-							r.Check(admitsTie, "R-C10.12", r.Key("R-C10.12", fn, "clock-tie", types.ExprString(be.X)+"~"+types.ExprString(be.Y)), be.Pos(),
-								"an entry whose clock time equals the tracked bound is admitted",
-								"the admission of a fetched entry requires its clock time to differ from the tracked bound ("+types.ExprString(be)+"): an entry that ties with the oldest kept one is refused although the log's order may place it in the kept tail, so which of two concurrent entries is kept depends on the order their blocks arrive")
-						}
-					}
-				}
-				return true
-			})
-		}
-		if ninst == 0 {
-			r.Hold("R-C10.12", r.Key("R-C10.12", nil, "no-clock-refusal", ""), token.NoPos, true, "no admission of a fetched entry compares its clock time with a tracked bound (nothing is refused by clock)")
-		}
-	}
+	r.Doc("R-C10.12", "a fetched entry is never refused, and its predecessors never left unqueued, on a clock tie: wherever the fetcher compares an entry's clock time with a bound it tracks before admitting the entry or queueing its links, the condition is as true for an equal time as for a later one (the log's order breaks equal times by writer id, so a tied entry can still belong to the kept tail; treating it as older makes the outcome depend on block arrival order)")
+	clockTieAdmission(c, r, "R-C10.12")
 	r.Doc("R-C10.11", "the loops that trim, put back and select entries process every element")
 	loopsComplete(c, r, "R-C10.11", func(fn *Fn) bool {
 		return rootNamed(fn, "fromMultihash", "fromEntryHash", "fromJSON", "fromEntry", "lastEntries", "entrySlice", "dropOldestOthers", "Difference")
@@ -736,4 +591,244 @@ func paramCutsByPosition(p *Prog, g *ssa.Function, i int, depth int) bool {
 		}
 	})
 	return cut
+}
+
+// clockTieAdmission (R-C10.12). Sinks: `results = append(results, entry)` and calls of addHashToQueue in the
+// methods of Fetcher. The condition a sink sits under (enclosing ifs, else branches, and leading
+// `if c { return/continue }` guards of the enclosing blocks) is expanded to alternatives; boolean locals assigned
+// once stand for their definition. An atom comparing a clock time with a Fetcher field is evaluated for "later"
+// and for "equal". Every alternative that lets a later entry through must have a counterpart that lets an equal
+// one through under no more side conditions.
+func clockTieAdmission(c *Ctx, r *Report, rule string) {
+	p := c.P
+	fetcherT := p.Named("entry", "Fetcher")
+	ninst := 0
+	for _, fn := range p.Fns {
+		if fn.Orig != nil || !inPkgs(p, fn, "entry") {
+			continue
+		}
+		root := fn.Root()
+		if root.Obj == nil {
+			continue
+		}
+		if rv := root.Obj.Type().(*types.Signature).Recv(); rv == nil || namedOf(rv.Type()) != fetcherT {
+			continue
+		}
+		expand := func(e ast.Expr) ast.Expr {
+			for depth := 0; depth < 4; depth++ {
+				id, ok := ast.Unparen(e).(*ast.Ident)
+				if !ok {
+					break
+				}
+				v, isVar := p.ObjOf(fn, id).(*types.Var)
+				if !isVar {
+					break
+				}
+				d := p.SoleDef(fn, v)
+				if d == nil {
+					break
+				}
+				e = d
+			}
+			return ast.Unparen(e)
+		}
+		var atomsOf func(cond ast.Expr, taken bool, depth int) [][]condAtom
+		atomsOf = func(cond ast.Expr, taken bool, depth int) [][]condAtom {
+			var out [][]condAtom
+			for _, alt := range dnfCond(cond, taken) {
+				alts := [][]condAtom{{}}
+				for _, a := range alt {
+					sub := [][]condAtom{{a}}
+					if x := expand(a.E); x != ast.Unparen(a.E) && depth < 3 && isBoolType(p.TypeOf(fn, a.E)) {
+						sub = atomsOf(x, a.Truth, depth+1)
+					}
+					var nx [][]condAtom
+					for _, pre := range alts {
+						for _, sfx := range sub {
+							nx = append(nx, append(append([]condAtom{}, pre...), sfx...))
+						}
+					}
+					alts = nx
+				}
+				out = append(out, alts...)
+			}
+			if len(out) > 64 {
+				return [][]condAtom{{}}
+			}
+			return out
+		}
+		isClockTime := func(e ast.Expr) bool {
+			found := false
+			ast.Inspect(expand(e), func(m ast.Node) bool {
+				if call, ok := m.(*ast.CallExpr); ok {
+					if cal := p.Callee(fn, call); cal != nil && cal.Name() == "GetTime" {
+						found = true
+					}
+				}
+				return !found
+			})
+			return found
+		}
+		isFetcherField := func(e ast.Expr) bool {
+			sel, ok := ast.Unparen(e).(*ast.SelectorExpr)
+			if !ok {
+				return false
+			}
+			v, ok := p.ObjOf(fn, sel.Sel).(*types.Var)
+			return ok && v.IsField() && namedOf(p.TypeOf(fn, sel.X)) == fetcherT
+		}
+		// clockAtom: (is a clock comparison, holds for a later time, holds for an equal time)
+		clockAtom := func(a condAtom) (bool, bool, bool) {
+			e := ast.Unparen(a.E)
+			truth := a.Truth
+			for {
+				u, ok := e.(*ast.UnaryExpr)
+				if !ok || u.Op != token.NOT {
+					break
+				}
+				e, truth = ast.Unparen(u.X), !truth
+			}
+			be, ok := e.(*ast.BinaryExpr)
+			if !ok || negOp(be.Op) == token.ILLEGAL {
+				return false, false, false
+			}
+			op := be.Op
+			switch {
+			case isClockTime(be.X) && isFetcherField(be.Y):
+			case isClockTime(be.Y) && isFetcherField(be.X):
+				op = flipOp(op)
+			default:
+				return false, false, false
+			}
+			if !truth {
+				op = negOp(op)
+			}
+			later := op == token.GTR || op == token.GEQ || op == token.NEQ
+			equal := op == token.GEQ || op == token.LEQ || op == token.EQL
+			return true, later, equal
+		}
+		terminates := func(b *ast.BlockStmt) bool {
+			if b == nil || len(b.List) == 0 {
+				return false
+			}
+			switch l := b.List[len(b.List)-1].(type) {
+			case *ast.ReturnStmt:
+				return true
+			case *ast.BranchStmt:
+				return l.Tok == token.CONTINUE || l.Tok == token.BREAK
+			}
+			return false
+		}
+		walkNoLit(fn.Body, func(n ast.Node) bool {
+			var sink ast.Node
+			what := ""
+			switch x := n.(type) {
+			case *ast.AssignStmt:
+				if len(x.Rhs) == 1 {
+					if call, ok := ast.Unparen(x.Rhs[0]).(*ast.CallExpr); ok && p.Builtin(fn, call) == "append" && len(call.Args) >= 2 {
+						if et := p.TypeOf(fn, call.Args[1]); et != nil && isNamed(et, p.pkgPath("iface"), "IPFSLogEntry") {
+							sink, what = x, "admit"
+						}
+					}
+				}
+			case *ast.CallExpr:
+				if cal := p.Callee(fn, x); cal != nil && cal.Name() == "addHashToQueue" {
+					sink, what = x, "queue"
+				}
+			}
+			if sink == nil {
+				return true
+			}
+			// the condition the sink sits under, as one conjunction
+			var conj ast.Expr
+			and := func(e ast.Expr) {
+				if conj == nil {
+					conj = e
+				} else {
+					conj = &ast.BinaryExpr{X: e, Op: token.LAND, Y: conj}
+				}
+			}
+			for cur, par := sink, p.ParentIn(fn, sink); par != nil; cur, par = par, p.ParentIn(fn, par) {
+				switch x := par.(type) {
+				case *ast.IfStmt:
+					if cur == ast.Node(x.Body) {
+						and(x.Cond)
+					} else if cur == x.Else {
+						and(&ast.UnaryExpr{Op: token.NOT, X: x.Cond})
+					}
+				case *ast.BlockStmt:
+					for _, st := range x.List {
+						if st == cur {
+							break
+						}
+						if ifs, ok := st.(*ast.IfStmt); ok && ifs.Else == nil && ifs.Init == nil && terminates(ifs.Body) {
+							and(&ast.UnaryExpr{Op: token.NOT, X: ifs.Cond})
+						}
+					}
+				}
+				if par == ast.Node(fn.Body) {
+					break
+				}
+			}
+			if conj == nil {
+				return true
+			}
+			type altInfo struct {
+				later, equal bool
+				side         map[string]bool
+				hasClock     bool
+			}
+			var infos []altInfo
+			anyClock := false
+			for _, alt := range atomsOf(conj, true, 0) {
+				ai := altInfo{later: true, equal: true, side: map[string]bool{}}
+				for _, a := range alt {
+					if isC, l, e := clockAtom(a); isC {
+						ai.hasClock, anyClock = true, true
+						ai.later = ai.later && l
+						ai.equal = ai.equal && e
+					} else {
+						ai.side[fmt.Sprintf("%v|%s", a.Truth, types.ExprString(a.E))] = true
+					}
+				}
+				infos = append(infos, ai)
+			}
+			if !anyClock {
+				return true
+			}
+			ninst++
+			bad := ""
+			for _, a := range infos {
+				if !a.hasClock || !a.later {
+					continue
+				}
+				covered := false
+				for _, b := range infos {
+					if !b.equal {
+						continue
+					}
+					sub := true
+					for k := range b.side {
+						if !a.side[k] {
+							sub = false
+						}
+					}
+					if sub {
+						covered = true
+					}
+				}
+				if !covered {
+					bad = "a later entry passes under side conditions under which an entry with an equal time does not"
+				}
+			}
+			desc := map[string]string{"admit": "the admission of a fetched entry", "queue": "the queueing of a fetched entry's links"}[what]
+			r.Check(bad == "", rule, r.Key(rule, fn, "clock-tie", what), sink.Pos(),
+				desc+" treats an equal clock time like a later one",
+				desc+" compares the entry's clock time with a bound the fetcher tracks and lets a later entry through where it stops an equal one ("+bad+"): an entry that ties with the oldest kept one is treated as older although the log's order may place it in the kept tail, so which of two concurrent entries is kept depends on the order their blocks arrive")
+			return true
+		})
+	}
+	if ninst == 0 {
+		r.Hold(rule, r.Key(rule, nil, "no-clock-refusal", ""), token.NoPos, true, "no admission or queueing in the fetcher compares a clock time with a tracked bound (nothing is refused by clock)")
+	}
 }
